@@ -972,4 +972,16 @@ theorem v2_whole (P : X.Program) (inp : X.Input) (fuel : Nat) (β : X.Behaviour)
     exact v2_correct P st img inp fuel β hcomp hok hrun
   · simp at hok
 
+/-- The syntactic part of the class V2 (implied by `v2Ok`; used to report how often the reflective
+    part of the check fails on programs of the class). -/
+def isV2 (P : X.Program) : Bool :=
+  let gn := P.globals.map X.Decl.name
+  let pn := P.procs.map (·.name)
+  P.globals.all isVarDecl &&
+  P.procs.all (fun p => p.formals.all isValFormal && p.locals.all isVarDecl && okS4 pn p.body &&
+    (p.formals.map X.Formal.name ++ p.locals.map X.Decl.name).all (fun n => !gn.contains n && !pn.contains n)) &&
+  (match P.procs.find? (·.name == "main") with
+   | some m => !m.isFunc && m.formals.isEmpty
+   | none => false)
+
 end Hex.C01s
